@@ -43,9 +43,9 @@ def has_skip(item):
 
 # property -> how correspondence A is restricted and which theorems are audited
 PROPS = {
-    'C01': dict(traits=None, part='header', theorems=['DW.C01_applies_iff', 'DW.C01_unlisted_unconstrained', 'DW.C01_no_leak', 'DW.C01_merge_sound'],
+    'C01': dict(traits=None, part='header', theorems=['DW.C01_applies_iff', 'DW.C01_unlisted_unconstrained', 'DW.C01_no_leak', 'DW.C01_merge_sound', 'DW.dedupGo_generics'],
                 enums=['bounds'], design='7/C01'),
-    'C02': dict(traits=None, part='all', count=True, theorems=['DW.C02_impl_list', 'DW.C02_exhaustive', 'DW.C02_obligations_entailed'],
+    'C02': dict(traits=None, part='all', count=True, theorems=['DW.C02_impl_list', 'DW.C02_delegation_same_bounds', 'DW.implPreds_shortcut', 'DW.C18_effect', 'DW.C09_fieldwise'],
                 enums=None, design='7/C02'),
     'C03': dict(traits=['PartialEq'], theorems=['DW.C03_eq'], enums=['incomparable', 'skip'], design='7/C03'),
     'C04': dict(traits=['PartialOrd', 'Ord'], theorems=['DW.buildDiscriminants_spec', 'DW.C04_ord_refines', 'DW.C04_delegation', 'DW.C04_agree'],
@@ -72,12 +72,14 @@ PROPS = {
     'C13': dict(traits=STD, theorems=['DW.C13_eq_cfg_independent', 'DW.C13_ord_cfg_independent', 'DW.C13_untouched_traits',
                                       'DW.C13_zeroize_inert', 'DW.C13_forgetDiscr'],
                 enums=['discriminants', 'incomparable'], configs_quick=ALL_CONFIGS, cross_config=True, design='7/C13'),
-    'C14': dict(traits=None, part='all', theorems=['DW.C14_paths_rooted', 'DW.C14_binders_fresh', 'DW.C14_crate_option'],
+    'C14': dict(traits=None, part='all', theorems=['DW.C14_no_method_calls', 'DW.C14_core_paths_rooted', 'DW.C14_trait_path', 'DW.C14_crate_option', 'DW.C14_fn_paths_rooted',
+                                                'DW.C14_simple_distinct', 'DW.C14_field_vs_simple', 'DW.C14_self_vs_other', 'DW.C14_binders_fresh'],
                 enums=['debug', 'zeroize'], configs_quick=['default', 'zod'], stage1=True, design='7/C14'),
-    'C15': dict(traits=[], outcome='message', theorems=['DW.C15_incomparable_total', 'DW.C15_incomparable_needs_partial', 'DW.C15_default_unique',
-                                                        'DW.C15_union_traits', 'DW.C15_skip_group_derived', 'DW.C15_no_duplicate_trait'],
+    'C15': dict(traits=[], outcome='message', theorems=['DW.C15_incomparable_total', 'DW.C15_incomparable_needs_partial', 'DW.C15_incomparable_not_both',
+                                                        'DW.C15_default_unique', 'DW.C15_default_needs_derive', 'DW.C15_union_traits',
+                                                        'DW.C15_skip_group_derived', 'DW.C15_no_duplicate_trait', 'DW.C15_item_attr_shape'],
                 enums=['invalid', 'skip', 'default'], configs_quick=['default', 'zeroize'], design='7/C15'),
-    'C16': dict(traits=[], outcome='message', theorems=['DW.C16_no_panic_gen', 'DW.C16_stage1_item_kept', 'DW.C16_stage1_forward'],
+    'C16': dict(traits=[], outcome='message', theorems=['DW.C16_no_panic_stage2', 'DW.Input.fromInput_np', 'DW.genPanic_none', 'DW.C16_stage1_item_kept', 'DW.C16_stage1_forward'],
                 enums=['invalid'], stage1=True, malformed=0.6, configs_quick=['default', 'zeroize'], design='7/C16'),
     'C17': dict(traits=['Eq', 'Clone'], theorems=['DW.C17_eq_obligations', 'DW.C17_union'], enums=['skip', 'bounds'], design='7/C17'),
     'C18': dict(traits=['Zeroize'], theorems=['DW.C18_effect'], enums=['zeroize', 'skip'], configs_quick=['zeroize', 'zod'],
@@ -273,6 +275,70 @@ def signature(item, h):
     return hashlib.sha1(repr((item.kind, shapes, len(item.params), len(item.attrs), o, tail)).encode()).hexdigest()
 
 
+# --------------------------------------------------------------------------- stage 1 (attribute macro)
+
+def stage1_items(items, seed):
+    import copy
+    from items import Attr, Body, MList, MNameValue, MPathM, P, metas_body
+    rng = random.Random(seed + 17)
+    out = []
+
+    def crate_attr():
+        r = rng.random()
+        if r < 0.5:
+            return Attr('dw', metas_body([MNameValue('crate', rng.choice(['path', 'str']),
+                                                    P(rng.choice(['dw', '::dw::x', 'derive_where', '::derive_where', 'a::b'])))]))
+        if r < 0.6:
+            return Attr('dw', metas_body([MNameValue('crate', 'strbad')]))
+        if r < 0.7:
+            return Attr('dw', metas_body([MNameValue('crate', 'other')]))
+        if r < 0.8:
+            return Attr('dw', metas_body([MPathM('crate')]))
+        if r < 0.9:
+            return Attr('dw', metas_body([MList('crate', [MPathM('x')])]))
+        return Attr('bare', path=P(rng.choice(['::derive_where::derive_where_visited', 'derive_where::derive_where_visited',
+                                               'dw::derive_where_visited', 'foo'])))
+    for stream, it in items[::3]:
+        it = copy.deepcopy(it)
+        for _ in range(rng.choice([0, 1, 1, 2])):
+            it.attrs.insert(rng.randrange(len(it.attrs) + 1), crate_attr())
+        if rng.random() < 0.2:
+            for v in it.variants:
+                if rng.random() < 0.3:
+                    v.bodies.append(Body(notlist=rng.choice(['', ' = "x"'])))
+                for f in v.fields:
+                    if rng.random() < 0.3:
+                        f.bodies.append(Body(notlist=rng.choice(['', ' = "x"'])))
+        out.append((stream, it))
+    return out
+
+
+def run_stage1(prop, cfg, items, seed, out):
+    its = stage1_items(items, seed)
+    hook, log = runner.run_hook(cfg, ['1 ' + it.rust1() for _, it in its], tag='-%s-s1' % prop)
+    if hook is None:
+        out['harness_errors'].append('stage-1 hook run failed: ' + log[-500:])
+        return []
+    _, bits = runner.CONFIGS[cfg]
+    data = ''.join('stage1 %s %s ## %s\n' % (bits, it.sexp(), it.segs_sexp()) for _, it in its)
+    p = subprocess.run([runner.DRIVER], input=data, stdout=subprocess.PIPE, text=True)
+    model = p.stdout.split('\n')
+    dis = []
+    oc = collections.Counter()
+    for (stream, it), h, m in zip(its, hook, model):
+        oc[h.split(' ')[0]] += 1
+        ok = h == m
+        if not ok and h.startswith('err') and m.startswith('err') and '*' in m and ' @@ ' in h and ' @@ ' in m:
+            ok = h.split(' @@ ')[1] == m.split(' @@ ')[1] and h.startswith(m.split('*')[0])
+        if not ok:
+            hs, ms = h.split(' '), m.split(' ')
+            i = next((i for i, (a, b) in enumerate(zip(hs, ms)) if a != b), min(len(hs), len(ms)))
+            dis.append(dict(kind='stage1', config=cfg, stream=stream, source=it.rust1(), sexp=it.sexp(),
+                            hook=' '.join(hs[max(0, i - 10):i + 14]), model=' '.join(ms[max(0, i - 10):i + 14])))
+    out['stage1'] = dict(items=len(its), outcomes=dict(oc))
+    return dis
+
+
 # --------------------------------------------------------------------------- driver of a check
 
 def run_a(prop, tier, seed, items):
@@ -337,6 +403,8 @@ def run_a(prop, tier, seed, items):
                     if a != b:
                         out['disagreements'].append(dict(kind='cross-config', config=base_cfg + ' vs ' + cfg, stream=stream,
                                                           source=it.rust(), sexp=it.sexp(), hook=str(a)[:300], model=str(b)[:300]))
+    if spec.get('stage1'):
+        out['disagreements'] += run_stage1(prop, cfgs[0], items, seed, out)
     if spec.get('unsafe_scan'):
         hook = by_cfg.get('safe')
         if hook:
